@@ -69,6 +69,14 @@ const e4Section = `// ---------------- E4 over E2 ----------------
 //@ modifies z
 //@ end
 
+//@ func E4.Inverse
+//@ layer ring E2
+//@ option distribute
+//@ ensures[inverse] qmul(NR_E2, vec(z), old(vec(x))) == svec(2, 0, qnorm(NR_E2, old(vec(x))) * inv(qnorm(NR_E2, old(vec(x)))))
+//@ ensures[result] result == z
+//@ modifies z
+//@ end
+
 //@ func E4.Add
 //@ layer ring E2
 //@ ensures[value] vec(z) == vadd(old(vec(x)), old(vec(y)))
